@@ -8,7 +8,7 @@
 #include "vih.h"
 #include "slots.h"
 #ifndef MODE
-#define MODE 0		/* 0: '.' and 'N.'; 1: '@a' against typing */
+#define MODE 0		/* 0: '.' and 'N.'; 1: '@a' against typing; 2: '.' after a long insert */
 #endif
 #ifndef NCNT
 #define NCNT 2
@@ -16,9 +16,9 @@
 #ifndef TXTN
 #define TXTN 1
 #endif
-#define OUTSZ 1024
+#define OUTSZ 2048
 struct res { int len; char data[OUTSZ]; };
-static char keysA[256], keysB[256];
+static char keysA[4096], keysB[4096];
 static int nA, nB;
 /* regular text: every motion of the menu (with counts up to 3) succeeds from the start position and from the position of the repeat */
 static const char *FILE0 = "ab ib ab ib ab ib ab\nab ib ab ib ab ib ab\nab ib ab ib ab iQ ab\nab ib ab ib ab iQ ab\nab ib ab ib ab iQ ab\n";
@@ -48,8 +48,26 @@ void harness(void)
 	char chg[48], txt[12], pre[8], junk[8];
 	int c, n = 0, tl, reps, i, pn = 0;
 	/* symbolic pieces */
-	tl = slots_text(txt, "txt", TXTN, SL_ASCII | SL_2B, "xZ ", NULL);
-#if MODE == 0
+	tl = slots_text(txt, "txt", TXTN, SL_ASCII | SL_2B, MODE == 0 ? "xZ \037" : "xZ ", NULL);	/* \037 stands for the NUL key (^@), see below */
+#if MODE == 2
+	{
+		/* a change of several hundred keystrokes (well inside the 4 KiB record): o<L letters>ESC, then '.' against retyping */
+		static const int lens[] = {300, 520, 700};	/* typed as lines of 19 letters and a newline, so that no line gets long */
+		int L = lens[symx_conc(symx_u8("len") % 3)], k;
+		nA = add(keysA, 0, "1Gyy2Gwo");
+		for (k = 0; k < L; k++)
+			keysA[nA++] = k % 20 == 19 ? '\n' : 'a' + k % 20;
+		keysA[nA++] = '\033';
+		memcpy(keysB, keysA, nA);
+		nB = nA;
+		nA = add(keysA, nA, "j0.");
+		nB = add(keysB, nB, "j0o");
+		for (k = 0; k < L; k++)
+			keysB[nB++] = k % 20 == 19 ? '\n' : 'a' + k % 20;
+		keysB[nB++] = '\033';
+		(void) c; (void) n; (void) pre; (void) pn; (void) reps; (void) i; (void) junk; (void) chg; (void) tl;
+	}
+#elif MODE == 0
 	{
 		static const char *menu[] = {"x", "dw", "dd", "i%s\033", "a%s\033", "o%s\033", "cw%s\033", "rZ", "J", "~", ">>", "s%s\033", "A%s\033", "D",
 			"p", "P", "d/ab\n", "cti%s\033", "O%s\033", "X", "C%s\033", "guw", "S%s\033", "I%s\033"};
@@ -130,6 +148,12 @@ void harness(void)
 	/* the observation tail: marker at the cursor, unnamed register at the end, write */
 	nA = add(keysA, nA, "\033iM\033G$p:w\n:q\n");
 	nB = add(keysB, nB, "\033iM\033G$p:w\n:q\n");
+	for (i = 0; i < nA; i++)	/* the NUL key */
+		if (keysA[i] == '\037')
+			keysA[i] = 0;
+	for (i = 0; i < nB; i++)
+		if (keysB[i] == '\037')
+			keysB[i] = 0;
 	symx_observe_mem("keysA", keysA, nA);
 	symx_isolated(runA, &ra, sizeof(ra));
 	symx_isolated(runB, &rb, sizeof(rb));
